@@ -62,7 +62,7 @@ pub fn offer(ctx: &mut Ctx, it: &Item, types: &[Ty], nstyles: usize, strict: boo
 
 pub fn fixed_base(ty: Ty, salt: u64, i: u64, max_depth: u32) -> Item {
     let mut r = Rng::new(crate::rng::mix(salt, i));
-    let o = GenOpts { styled_prot: 0, built: false, max_depth };
+    let o = GenOpts { styled_prot: 0, built: false, max_depth, mixed: false };
     let v = gen::gen_mval(&mut r, ty, &o);
     let it = model::encode(&v);
     // every other base has its top-level map entries in a scattered (non-canonical) wire order
